@@ -1,5 +1,6 @@
 import StraxModel.Lemmas.PipelineVocab
 import StraxModel.Props.C08
+import StraxModel.Props.C09
 /-
   Helper lemmas for property C01, part 7: `Plugin.iter` (the model `Align.iterRun` of C08) IS an aligner
   of the stream theory on the inputs C08's theorems speak about (`validInputsB`: plain law-abiding
@@ -259,5 +260,38 @@ theorem iter_first_step_total_partial (rid : String) (T0 T1 : Int) (deps : List 
       simp only [perChunk, List.map_map, List.mem_map] at hc
       obtain ⟨cl, -, rfl⟩ := hc
       simp [uniformB, restampChunk, setRows, callChunk, ridOf, targetsOf, hc0.1, hc0.2.1]
+
+/-! ### the asymmetric overlap-window kind of the harness vocabulary is window-local (C09) -/
+
+/-- counting the rows that start at most `wl` before and at most `wr` after a row is a window-local computation for
+the window (look-back `wl`, look-ahead `wr`): such a row ends after `r.time − wl` (positive duration) and starts before
+`r.endt + wr` -/
+theorem overlap2_windowLocal (wl wr : Nat) : C09.WindowLocal (Vocab.overlapWhole2 wl wr) wl wr := by
+  refine ⟨fun r ctx => Vocab.overlapId2 wl wr ctx r, fun _ _ => ⟨rfl, rfl⟩, ?_⟩
+  intro rows hpos
+  unfold Vocab.overlapWhole2
+  apply List.map_congr_left
+  intro r hr
+  simp only [Vocab.overlapId2, Vocab.nearCount2, List.filter_filter]
+  congr 4
+  apply List.filter_congr
+  intro x hx
+  have hx' := hpos x hx
+  have hr' := hpos r hr
+  by_cases hc : r.time - (wl : Int) ≤ x.time ∧ x.time ≤ r.time + (wr : Int)
+  · have : Overlap.near (↑wl) (↑wr) r x = true := by
+      simp only [Overlap.near, Bool.and_eq_true, decide_eq_true_eq]
+      omega
+    simp [hc.1, hc.2, this]
+  · have : (decide (r.time - (wl : Int) ≤ x.time) && decide (x.time ≤ r.time + (wr : Int))) = false := by
+      simp only [Bool.and_eq_false_iff, decide_eq_false_iff_not]
+      by_cases h1 : r.time - (wl : Int) ≤ x.time
+      · exact Or.inr (fun h2 => hc ⟨h1, h2⟩)
+      · exact Or.inl h1
+    simp [this]
+
+theorem overlap2_streamSpec (wl wr : Nat) :
+    StreamSpec (Overlap.runOverlap (Vocab.overlapWhole2 wl wr) (wl, wr)) (Vocab.overlapWhole2 wl wr) :=
+  C09.overlap_whole_for_pipeline_partial _ _ _ (overlap2_windowLocal wl wr)
 
 end Strax.Pipeline
